@@ -56,7 +56,7 @@ Lemma setattr_frame E c s n v m :
   m <> n -> m <> shadow n -> get (fst (setattr E c s n v)) m = get s m.
 Proof.
   intros H1 H2. unfold setattr. destruct (trait_of c n) as [[d dflt]|]; [|reflexivity].
-  destruct (validate E d v) as [w| |e]; try reflexivity.
+  destruct (if is_undefined v then Accept v else validate E d v) as [w| |e]; try reflexivity.
   destruct (post_setattr d w) as [|x|e]; cbn [fst].
   - now rewrite get_set_other.
   - destruct (get s n) as [o|].
@@ -71,14 +71,14 @@ Qed.
 
 (* a successful assignment: the entry, its domain, its conversion, its shadow *)
 Lemma setattr_ok E c s n v s' d dflt :
-  class_ok E c = true -> post_safe c = true -> ShInv c s ->
+  is_undefined v = false -> class_ok E c = true -> post_safe c = true -> ShInv c s ->
   trait_of c n = Some (d, dflt) -> setattr E c s n v = (s', Ok) ->
   exists w, validate E d v = Accept w /\ get s' n = Some w /\ shadow_ok d w (get s' (shadow n)) = true.
 Proof.
-  intros Hc Hp HS Ht. destruct (class_ok_at E c _ _ _ Hc Ht) as (_ & Hr & _).
+  intros Hu Hc Hp HS Ht. destruct (class_ok_at E c _ _ _ Hc Ht) as (_ & Hr & _).
   assert (Hsn : shadow n <> n) by (unfold shadow; lia).
   unfold post_safe in Hp. rewrite forallb_forall in Hp. specialize (Hp _ (trait_of_in _ _ _ _ Ht)). cbn in Hp.
-  unfold setattr. rewrite Ht.
+  unfold setattr. rewrite Hu, Ht.
   destruct (validate E d v) as [w| |e] eqn:Hv; try discriminate.
   destruct (is_mapped d) eqn:Hm.
   2:{ (* not a mapped trait: no constraint on the shadow *)
@@ -116,11 +116,12 @@ Qed.
 Definition keys_unique (c : cls) : Prop := forall n e, In (n, e) c -> trait_of c n = Some e.
 
 Lemma law_setattr E c s n v d dflt (h : how) :
+  is_undefined v = false ->
   h <> Ctor -> class_ok E c = true -> post_safe c = true -> keys_unique c -> ShInv c s ->
   trait_of c n = Some (d, dflt) ->
   law_step E c s (h, [(n, v)]) (mkObs (snd (setattr E c s n v)) true (fst (setattr E c s n v))) = [].
 Proof.
-  intros Hh Hc Hp Hk HS Ht.
+  intros Hu Hh Hc Hp Hk HS Ht.
   destruct (class_ok_at E c _ _ _ Hc Ht) as (Hsd & Hr & _).
   unfold sound_hyp in Hsd. apply andb_prop in Hsd as [Hsd HB]. apply andb_prop in Hsd as [Hsd _].
   apply andb_prop in Hsd as [Hwf _].
@@ -138,7 +139,7 @@ Proof.
   rewrite H2. cbn [chk app].
   destruct out as [|e].
   - (* stored *)
-    destruct (setattr_ok E c s n v s' d dflt Hc Hp HS Ht Hs) as (w & Hv & Hg & Hsh).
+    destruct (setattr_ok E c s n v s' d dflt Hu Hc Hp HS Ht Hs) as (w & Hv & Hg & Hsh).
     assert (H1 : forallb (fun nd =>
                  (opt_eqb pv_eqb (get s (fst nd)) (get s' (fst nd))
                   && opt_eqb pv_eqb (get s (shadow (fst nd))) (get s' (shadow (fst nd))))
@@ -158,7 +159,7 @@ Proof.
     rewrite H1. cbn [chk app]. cbn [forallb fst snd]. rewrite Ht, Hg.
     rewrite (documented_conversion_lemma E d v w Hwf HB Hv). reflexivity.
   - (* an exception: nothing changed *)
-    pose proof (setattr_exception_no_effect E c s n v s' e Hp Hs) as ->.
+    pose proof (setattr_exception_no_effect E c s n v s' e Hu Hp Hs) as ->.
     assert (H1 : forallb (fun nd =>
                  (opt_eqb pv_eqb (get s (fst nd)) (get s (fst nd))
                   && opt_eqb pv_eqb (get s (shadow (fst nd))) (get s (shadow (fst nd))))
@@ -167,7 +168,7 @@ Proof.
     rewrite H1. cbn [chk app].
     assert (H3 : match h with Ctor => same_on (names_of c) s s | _ => same_on (names_of c) s s end = true)
       by (destruct h; apply same_on_refl).
-    destruct (setattr_exception_class E c s n v s e d dflt Hp Ht Hwf Hs) as [-> | Hown].
+    destruct (setattr_exception_class E c s n v s e d dflt Hu Hp Ht Hwf Hs) as [-> | Hown].
     + destruct h; rewrite ?same_on_refl; reflexivity.
     + destruct h; rewrite ?same_on_refl; cbn [chk app];
         destruct e; cbn [existsb snd]; rewrite ?Hown; reflexivity.
@@ -175,14 +176,14 @@ Qed.
 
 (* ---------- invariants along histories of single-keyword attribute / trait_set operations ---------- *)
 Lemma setattr_shinv E c s n v :
-  class_ok E c = true -> post_safe c = true -> keys_unique c -> ShInv c s ->
+  is_undefined v = false -> class_ok E c = true -> post_safe c = true -> keys_unique c -> ShInv c s ->
   ShInv c (fst (setattr E c s n v)).
 Proof.
-  intros Hc Hp Hk HS. destruct (trait_of c n) as [[d dflt]|] eqn:Ht.
+  intros Hu Hc Hp Hk HS. destruct (trait_of c n) as [[d dflt]|] eqn:Ht.
   2:{ unfold setattr. now rewrite Ht. }
   destruct (setattr E c s n v) as [s' out] eqn:Hs. cbn [fst].
   destruct out as [|e].
-  - destruct (setattr_ok E c s n v s' d dflt Hc Hp HS Ht Hs) as (w & Hv & Hg & Hsh).
+  - destruct (setattr_ok E c s n v s' d dflt Hu Hc Hp HS Ht Hs) as (w & Hv & Hg & Hsh).
     intros m dm dfm wm Htm Hgm. destruct (Z.eq_dec m n) as [->|Hmn].
     + rewrite Ht in Htm. inversion Htm; subst. rewrite Hg in Hgm. inversion Hgm; subst. exact Hsh.
     + assert (Hms : m <> shadow n) by (eapply names_shadow_disjoint; eauto).
@@ -191,10 +192,8 @@ Proof.
       pose proof (setattr_frame E c s n v m Hmn Hms) as F1. rewrite Hs in F1. cbn in F1.
       pose proof (setattr_frame E c s n v (shadow m)) as F2. rewrite Hs in F2. cbn in F2.
       rewrite F2 by (unfold shadow in *; lia). rewrite F1 in Hgm. eapply HS; eauto.
-  - now rewrite (setattr_exception_no_effect E c s n v s' e Hp Hs).
+  - now rewrite (setattr_exception_no_effect E c s n v s' e Hu Hp Hs).
 Qed.
-
-Definition single_attr_op (o : op) : Prop := exists h n v, o = (h, [(n, v)]) /\ h <> Ctor.
 
 (* the observation the model produces for one operation *)
 Definition model_obs (E : env) (c : cls) (s : inst) (o : op) : obs :=
@@ -205,24 +204,6 @@ Fixpoint model_hist (E : env) (c : cls) (s : inst) (ops : list op) : list (op * 
   | o :: r => (o, model_obs E c s o) :: model_hist E c (fst (step E c s o)) r
   end.
 
-Lemma step_single E c s h n v : h <> Ctor -> step E c s (h, [(n, v)]) = setattr E c s n v.
-Proof.
-  intros Hh. destruct h; try congruence; cbn; destruct (setattr E c s n v) as [s1 [|e]]; reflexivity.
-Qed.
-
-Lemma law_on_history E c : class_ok E c = true -> post_safe c = true -> keys_unique c ->
-  forall ops s i, ShInv c s ->
-    Forall single_attr_op ops ->
-    Forall (fun o => exists e, trait_of c (fst (hd (0, PNone) (snd o))) = Some e) ops ->
-    law_hist E c i s (model_hist E c s ops) = [].
-Proof.
-  intros Hc Hp Hk. induction ops as [|o ops IH]; intros s i HS Hso Htr; [reflexivity|].
-  inversion Hso as [|? ? (h & n & v & -> & Hh) Hso']; subst. inversion Htr as [|? ? [[d dflt] Ht] Htr']; subst.
-  cbn in Ht. cbn [model_hist law_hist]. unfold model_obs. rewrite (step_single E c s h n v Hh).
-  rewrite (law_setattr E c s n v d dflt h Hh Hc Hp Hk HS Ht). cbn [map app o_after].
-  apply IH; auto. now apply setattr_shinv.
-Qed.
-
 Lemma shinv_empty c : ShInv c [].
 Proof. intros n d dflt w _ H. discriminate. Qed.
 
@@ -230,14 +211,15 @@ Proof. intros n d dflt w _ H. discriminate. Qed.
 (* every operation: several keywords, trait_set, constructor                                *)
 (* ====================================================================================== *)
 Definition kw_ok (c : cls) (kw : list (Z * pv)) : Prop :=
-  NoDup (map fst kw) /\ forall p, In p kw -> exists e, trait_of c (fst p) = Some e.
+  NoDup (map fst kw) /\ (forall p, In p kw -> exists e, trait_of c (fst p) = Some e) /\ kw_defined kw = true.
 
 Lemma assign_all_shinv E c kw : forall s,
-  class_ok E c = true -> post_safe c = true -> keys_unique c -> ShInv c s ->
+  kw_defined kw = true -> class_ok E c = true -> post_safe c = true -> keys_unique c -> ShInv c s ->
   ShInv c (fst (assign_all E c s kw)).
 Proof.
-  induction kw as [|[n v] kw IH]; intros s Hc Hp Hk HS; cbn; [exact HS|].
-  pose proof (setattr_shinv E c s n v Hc Hp Hk HS) as H1.
+  induction kw as [|[n v] kw IH]; intros s Hd Hc Hp Hk HS; cbn; [exact HS|].
+  cbn in Hd. apply andb_prop in Hd as [Hv Hd]. apply negb_true_iff in Hv.
+  pose proof (setattr_shinv E c s n v Hv Hc Hp Hk HS) as H1.
   destruct (setattr E c s n v) as [s1 [|e]]; cbn in *; [now apply IH | exact H1].
 Qed.
 
@@ -275,16 +257,17 @@ Lemma assign_all_ok E c kw : forall s s',
                     | _, _ => false
                     end) kw = true.
 Proof.
-  induction kw as [|[n v] kw IH]; intros s s' Hc Hp HS Hk [Hnd Htr] H; [reflexivity|].
+  induction kw as [|[n v] kw IH]; intros s s' Hc Hp HS Hk (Hnd & Htr & Hdef) H; [reflexivity|].
+  cbn in Hdef. apply andb_prop in Hdef as [Hu Hdef]. apply negb_true_iff in Hu.
   cbn in H. destruct (setattr E c s n v) as [s1 [|e]] eqn:Hs; [|discriminate].
   destruct (Htr (n, v) (or_introl eq_refl)) as [[d dflt] Ht]. cbn in Ht.
-  destruct (setattr_ok E c s n v s1 d dflt Hc Hp HS Ht Hs) as (w & Hv & Hg & _).
+  destruct (setattr_ok E c s n v s1 d dflt Hu Hc Hp HS Ht Hs) as (w & Hv & Hg & _).
   destruct (class_ok_at E c _ _ _ Hc Ht) as (Hsd & Hr & _).
   unfold sound_hyp in Hsd. apply andb_prop in Hsd as [Hsd HB]. apply andb_prop in Hsd as [Hsd _].
   apply andb_prop in Hsd as [Hwf _].
   cbn in Hnd. inversion Hnd as [|? ? Hnotin Hnd']; subst.
   assert (HS1 : ShInv c s1).
-  { pose proof (setattr_shinv E c s n v Hc Hp Hk HS) as X. now rewrite Hs in X. }
+  { pose proof (setattr_shinv E c s n v Hu Hc Hp Hk HS) as X. now rewrite Hs in X. }
   cbn [forallb fst snd]. rewrite Ht.
   (* the later keywords do not touch n *)
   assert (Hgn : get s' n = Some w).
@@ -294,7 +277,7 @@ Proof.
     - intros ->. apply Hnotin. apply in_map_iff. now exists p.
     - destruct (class_ok_at E c _ _ _ Hc Htp) as (_ & Hrp & _). unfold shadow. lia. }
   rewrite Hgn, (documented_conversion_lemma E d v w Hwf HB Hv). cbn.
-  apply (IH s1 s'); auto. split; [exact Hnd'|]. intros p Hp'. apply Htr. now right.
+  apply (IH s1 s'); auto. split; [exact Hnd'|]. split; [|exact Hdef]. intros p Hp'. apply Htr. now right.
 Qed.
 
 (* a failing sequence: the exception is TraitError or the own-protocol exception of one of the values *)
@@ -303,16 +286,17 @@ Lemma assign_all_exn E c kw : forall s s' e,
   assign_all E c s kw = (s', Raise e) ->
   e = ETraitError \/ existsb (fun p => raises_own (snd p) e) kw = true.
 Proof.
-  induction kw as [|[n v] kw IH]; intros s s' e Hc Hp [Hnd Htr] H; [discriminate|].
+  induction kw as [|[n v] kw IH]; intros s s' e Hc Hp (Hnd & Htr & Hdef) H; [discriminate|].
+  cbn in Hdef. apply andb_prop in Hdef as [Hu Hdef]. apply negb_true_iff in Hu.
   cbn in H. destruct (setattr E c s n v) as [s1 [|e1]] eqn:Hs.
   - inversion Hnd; subst. destruct (IH s1 s' e Hc Hp) as [->|Hx]; auto.
-    + split; [assumption|]. intros p Hp'. apply Htr. now right.
+    + split; [assumption|]. split; [|exact Hdef]. intros p Hp'. apply Htr. now right.
     + right. cbn. rewrite Hx. apply orb_true_r.
   - inversion H; subst. destruct (Htr (n, v) (or_introl eq_refl)) as [[d dflt] Ht]. cbn in Ht.
     destruct (class_ok_at E c _ _ _ Hc Ht) as (Hsd & _).
     unfold sound_hyp in Hsd. apply andb_prop in Hsd as [Hsd _]. apply andb_prop in Hsd as [Hsd _].
     apply andb_prop in Hsd as [Hwf _].
-    destruct (setattr_exception_class E c s n v s' e d dflt Hp Ht Hwf Hs) as [->|Hown]; auto.
+    destruct (setattr_exception_class E c s n v s' e d dflt Hu Hp Ht Hwf Hs) as [->|Hown]; auto.
     right. cbn. now rewrite Hown.
 Qed.
 
@@ -324,12 +308,13 @@ Lemma law_step_model E c s o :
 Proof.
   intros Hc Hp Hk HI HS Hok. destruct o as [h kw]. unfold op_ok in Hok. cbn [snd] in Hok.
   unfold model_obs, law_step. cbn [o_out o_after o_names_attr].
-  pose proof (step_inv E c s (h, kw) Hc HI) as HI'.
+  assert (Hdef : kw_defined kw = true) by (destruct Hok as (_ & _ & Hd); exact Hd).
+  pose proof (step_inv E c s (h, kw) Hdef Hc HI) as HI'.
   assert (HS' : ShInv c (fst (step E c s (h, kw)))).
   { destruct h; cbn [step].
     - now apply assign_all_shinv.
     - now apply assign_all_shinv.
-    - pose proof (assign_all_shinv E c kw [] Hc Hp Hk (shinv_empty c)) as X.
+    - pose proof (assign_all_shinv E c kw [] Hdef Hc Hp Hk (shinv_empty c)) as X.
       destruct (assign_all E c [] kw) as [s1 [|e]]; cbn in *; assumption. }
   rewrite (entries_ok E c _ _ Hk HI' HS'). cbn [chk app].
   (* clause 2: untouched names *)
@@ -359,7 +344,8 @@ Proof.
     + assert (H3 : match kw with [_] => same_on (names_of c) s s1 | _ => true end = true).
       { destruct kw as [|[n v] [|q kw']]; try reflexivity.
         cbn in Ha. destruct (setattr E c s n v) as [s2 [|e2]] eqn:Hs; inversion Ha; subst.
-        rewrite (setattr_exception_no_effect E c s n v s1 e Hp Hs). apply same_on_refl. }
+        assert (Hu : is_undefined v = false) by (cbn in Hdef; apply andb_prop in Hdef as [Hu _]; now apply negb_true_iff in Hu).
+        rewrite (setattr_exception_no_effect E c s n v s1 e Hu Hp Hs). apply same_on_refl. }
       destruct (assign_all_exn E c kw s s1 e Hc Hp Hok Ha) as [->|Hx].
       * destruct kw as [|p [|q kw']]; rewrite ?H3; reflexivity.
       * destruct kw as [|p [|q kw']]; rewrite ?H3; cbn [chk app]; destruct e; rewrite ?Hx; reflexivity.
@@ -368,7 +354,8 @@ Proof.
     + assert (H3 : match kw with [_] => same_on (names_of c) s s1 | _ => true end = true).
       { destruct kw as [|[n v] [|q kw']]; try reflexivity.
         cbn in Ha. destruct (setattr E c s n v) as [s2 [|e2]] eqn:Hs; inversion Ha; subst.
-        rewrite (setattr_exception_no_effect E c s n v s1 e Hp Hs). apply same_on_refl. }
+        assert (Hu : is_undefined v = false) by (cbn in Hdef; apply andb_prop in Hdef as [Hu _]; now apply negb_true_iff in Hu).
+        rewrite (setattr_exception_no_effect E c s n v s1 e Hu Hp Hs). apply same_on_refl. }
       destruct (assign_all_exn E c kw s s1 e Hc Hp Hok Ha) as [->|Hx].
       * destruct kw as [|p [|q kw']]; rewrite ?H3; reflexivity.
       * destruct kw as [|p [|q kw']]; rewrite ?H3; cbn [chk app]; destruct e; rewrite ?Hx; reflexivity.
@@ -387,11 +374,12 @@ Proof.
   inversion Hok as [|? ? Ho Hok']; subst.
   cbn [model_hist law_hist]. rewrite (law_step_model E c s o Hc Hp Hk HI HS Ho). cbn [map app].
   unfold model_obs at 1. cbn [o_after].
+  assert (Hdef : kw_defined (snd o) = true) by (destruct Ho as (_ & _ & Hd); exact Hd).
   apply IH; auto.
   - now apply step_inv.
-  - destruct o as [h kw]. destruct h; cbn [step].
+  - destruct o as [h kw]. cbn [snd] in Hdef. destruct h; cbn [step].
     + now apply assign_all_shinv.
     + now apply assign_all_shinv.
-    + pose proof (assign_all_shinv E c kw [] Hc Hp Hk (shinv_empty c)) as X.
+    + pose proof (assign_all_shinv E c kw [] Hdef Hc Hp Hk (shinv_empty c)) as X.
       destruct (assign_all E c [] kw) as [s1 [|e]]; cbn in *; assumption.
 Qed.
